@@ -39,13 +39,13 @@ INSTRUMENT = {
     "c10nr": [("ipfix", ["memcache.go", "decoder.go"], None), ("netflow/v9", ["memcache.go", "decoder.go"], None)],
     # package main is rewritten completely; the decoder packages only get their sync / sync/atomic imports redirected
     # (none today: a pooled scratch buffer introduced there becomes a deterministic, explorable pool)
-    "pipe": [("vflow", ["ipfix.go", "sflow.go", "netflow_v5.go", "netflow_v9.go", "vflow.go", "ipfix_unix.go", "sflow_unix.go"], "vflowMain"),
+    "pipe": [("vflow", ["ipfix.go", "sflow.go", "netflow_v5.go", "netflow_v9.go", "vflow.go", "ipfix_unix.go", "sflow_unix.go"], "vflowMain;GetOptions=zzGetOptions,NewSFlow=zzNewSFlow,NewIPFIX=zzNewIPFIX,NewNetflowV5=zzNewNetflowV5,NewNetflowV9=zzNewNetflowV9"),
              ("sflow", "*", None), ("packet", "*", None), ("reader", "*", None), ("netflow/v5", "*", None),
              ("netflow/v9", "*-memcache.go", None), ("ipfix", "*-memcache.go-memcache_rpc.go-decoder.go-rfc5102_model.go", None),
              # the template caches read the VIRTUAL clock here too (no wall-clock dependence), their locks stay ordinary locks
              ("netflow/v9", ["memcache.go"], "SEAMS"), ("ipfix", ["memcache.go"], "SEAMS")],
     # the shutdown check also makes the template cache's lock operations scheduling points (dump vs. a worker's insert)
-    "pipe15": [("vflow", ["ipfix.go", "sflow.go", "netflow_v5.go", "netflow_v9.go", "vflow.go", "ipfix_unix.go", "sflow_unix.go"], "vflowMain"),
+    "pipe15": [("vflow", ["ipfix.go", "sflow.go", "netflow_v5.go", "netflow_v9.go", "vflow.go", "ipfix_unix.go", "sflow_unix.go"], "vflowMain;GetOptions=zzGetOptions,NewSFlow=zzNewSFlow,NewIPFIX=zzNewIPFIX,NewNetflowV5=zzNewNetflowV5,NewNetflowV9=zzNewNetflowV9"),
                ("sflow", "*", None), ("packet", "*", None), ("reader", "*", None), ("netflow/v5", "*", None),
                ("netflow/v9", "*", None), ("ipfix", "*-memcache_rpc.go-decoder.go-rfc5102_model.go", None)],
 }
@@ -72,7 +72,10 @@ def instrument(name):
         if rename == "SEAMS":  # environment seams only (virtual clock ...): no additional scheduling points
             cmd += ["-seams-only"]
         elif rename:
-            cmd += ["-rename-main", rename]
+            r_main, _, r_calls = rename.partition(";")
+            cmd += ["-rename-main", r_main]
+            if r_calls:
+                cmd += ["-call-rename", r_calls]
         cmd += [os.path.join(orch.REPO, pkg, f) for f in files]
         r = subprocess.run(cmd, stdout=subprocess.PIPE, stderr=subprocess.STDOUT, text=True)
         if r.returncode != 0:
@@ -697,9 +700,9 @@ def c15(tier):
     return finish("C15", tier, res,
                   rule="per pipeline: the real run()/workers/shutdown() under main()'s orchestration (replicated: start, wait for the signal, shutdown, wait) in scenarios idle / data before the signal / data around the signal (queue capacity 1000 and 1) / template burst around the signal, two stop-start cycles each; every schedule within the deviation bound, where a deviation is also a timer firing while other threads are still runnable (a thread descheduled for a second). "
                        "Second space (template cache lock operations are scheduling points too): a template datagram the receive loop has read (counted) right before the signal, deviation bound 2 — the dump against a worker that has taken the datagram off the queue but not stored the template yet. "
-                       "a start between the two cycles that gets the signal AT ONCE (as soon as main has installed its handler: no listener yet, no traffic, no look at the counters), and a restart after two hours (thorough: 400 days) of downtime. Oracle: no panic (send on / close of closed channel, nil dereference), no deadlock, main returns within 10 virtual seconds of the signal, no race report, the cache file left behind loads and holds the template processed before the signal and every template whose datagram had been received (counted) before the signal unless runnable threads were held up for a second or more in total (early timer firings), after the restart data for it is published at once. "
+                       "the repository's OWN main() (GetOptions and the four constructors redirected to the harness, everything else - signal registration, starting and stopping the protocols, the final wait - as written) with data before the signal and with the signal REPEATED 0.3 virtual seconds later (a signal that finds no handler registered is the process's death), a start between the two cycles that gets the signal AT ONCE (as soon as main has installed its handler: no listener yet, no traffic, no look at the counters), and a restart after two hours (thorough: 400 days) of downtime. Oracle: no panic (send on / close of closed channel, nil dereference), no deadlock, main returns within 10 virtual seconds of the signal, no race report, the cache file left behind loads and holds the template processed before the signal and every template whose datagram had been received (counted) before the signal unless runnable threads were held up for a second or more in total (early timer firings), after the restart data for it is published at once. "
                        "Trace validation: %d runs of the shipped binary (real signals SIGTERM/SIGINT, loopback traffic incl. a flood during the signal, TCP sink behind the rawSocket producer, restart on the same cache files; in every other run the signal is repeated 0.3 s later, while the collector is stopping)." % nruns,
-                  assumptions=PIPE_ASSUME + ["main()'s 20 lines of orchestration are replicated next to the real run()/shutdown() because GetOptions (flag registration, PID file, kill -0) cannot be re-run per execution",
+                  assumptions=PIPE_ASSUME + ["most scenarios use a replica of main()'s 20 lines of orchestration next to the real run()/shutdown() (fewer threads: main() starts all four protocols); two scenario families per protocol run the real main() with GetOptions - which cannot be re-run per execution: flag registration, PID file, kill -0 - and the constructors redirected to the harness",
                                              "virtual clock: time advances when every thread is blocked; in addition a timer may fire early at the cost of one deviation",
                                              "'acknowledged before the signal' = the template datagram was fully processed (quiescence) before the signal was sent",
                                              "a restart inside one execution re-creates the package-level state after the old threads have run out (sched.ProcessBoundary)"],
